@@ -197,7 +197,19 @@ var c06Invalid = []struct {
 	}},
 }
 
+// archlinux package names may hold ASCII letters, digits and @ . _ + - only (and not start with - or .)
+var c06BadArchNames = map[string]string{"space": "foo bar", "hash": "#", "slash": "a/b", "colon": "a:b", "latin1": "caf\u00e9", "cyrillic": "\u043f\u0430\u043a\u0435\u0442",
+	"arabic-digit": "foo\u0663", "fullwidth": "\uff46\uff4f\uff4f", "sharp-s": "stra\u00dfe-1", "newline": "foo\nbar", "leading-hyphen": "-foo", "cjk": "\u5305", "combining": "e\u0301x"}
+
 func init() {
+	for _, k := range model.SortedKeys(c06BadArchNames) {
+		name := c06BadArchNames[k]
+		c06Invalid = append(c06Invalid, struct {
+			class   string
+			formats []string
+			apply   func(env *engine.Env, d fixture.Doc, f string)
+		}{"archlinux-name-invalid-" + k, []string{"archlinux"}, func(env *engine.Env, d fixture.Doc, f string) { d["name"] = name }})
+	}
 	engine.Register(&engine.Prop{
 		ID:    "C06",
 		Level: "fault_enumeration",
